@@ -20,12 +20,12 @@ vars == <<lvars, tid, l>>
 T == Traces[tid]
 Tr == T.ev
 Ev == Tr[l]
-P == T.cfg                    \* [n, dd, ad, timely, mss, fl]
+P == T.cfg                    \* [n, dd, ad, timely, fifo, mss, fl]
 ToSet(s) == {s[i] : i \in 1..Len(s)}
 Flag(b) == IF b THEN 1 ELSE 0
 
 Init == /\ tid \in 1..Len(Traces) /\ l = 1 /\ TLCSet(tid, 1)
-        /\ InitWith([n |-> P.n, dd |-> ToSet(P.dd), ad |-> ToSet(P.ad), timely |-> P.timely])
+        /\ InitWith([n |-> P.n, dd |-> ToSet(P.dd), ad |-> ToSet(P.ad), timely |-> P.timely, fifo |-> P.fifo])
 More == l <= Len(Tr)
 Consume(k) == l' = l + k /\ UNCHANGED tid
 
@@ -39,22 +39,21 @@ RtoEv == /\ More /\ Ev.e = "T" /\ Ev.ctx = 0 /\ Ev.re = 1
          /\ \E s \in timers : DataOk(Ev, s) /\ TimerFire(s)
          /\ Consume(1)
 SinkEv == /\ More /\ Ev.e = "S" /\ dq # <<>>
-          /\ Ev.seq = Head(dq) * P.mss /\ Ev.k = 1
+          /\ Ev.k = 1
           /\ Ev.n = akn + 1 /\ Ev.dr = Flag((akn + 1) \in cfg.ad)
-          /\ SinkRecv
+          /\ \E i \in 1..Len(dq) : Ev.seq = dq[i] * P.mss /\ SinkRecvAt(i)
           /\ Ev.ack = Pfx(rcvd') * P.mss
           /\ Consume(1)
 AckEv == /\ More /\ Ev.e = "C" /\ Ev.nfr = 0 /\ aq # <<>>
-         /\ Ev.ack = Head(aq).ack * P.mss
-         /\ AckArrive(FALSE)
+         /\ \E i \in 1..Len(aq) : Ev.ack = aq[i].ack * P.mss /\ AckArriveAt(i, FALSE)
          /\ Ev.la = una' * P.mss /\ Ev.ns = nxt' * P.mss
          /\ Consume(1)
 \* a retransmission from inside put(): the "T" event is followed by the "C" event of the call that made it
 FrxEv == /\ More /\ Ev.e = "T" /\ Ev.ctx = 1 /\ Ev.re = 1 /\ l + 1 <= Len(Tr) /\ aq # <<>>
          /\ LET C == Tr[l + 1] IN
-              /\ C.e = "C" /\ C.nfr = 1 /\ C.ack = Head(aq).ack * P.mss
+              /\ C.e = "C" /\ C.nfr = 1
               /\ DataOk(Ev, una)
-              /\ AckArrive(TRUE)
+              /\ \E i \in 1..Len(aq) : C.ack = aq[i].ack * P.mss /\ AckArriveAt(i, TRUE)
               /\ C.la = una' * P.mss /\ C.ns = nxt' * P.mss
          /\ Consume(2)
 EndEv == /\ More /\ Ev.e = "Q"
